@@ -259,7 +259,7 @@ Section Endpoint.
         | UMsg m => quiesce (set_queue st (queue st ++ [m]))
         end
     | OTick dt =>
-        if dt <=? 0 then st else advance (S (List.length (callers st))) (now st + dt) st
+        if dt <=? 0 then st else advance (S (S (List.length (waiters st)))) (now st + dt) st
     | OCancel k =>
         match get_caller k (callers st) with
         | Some cl =>
